@@ -172,7 +172,30 @@ class Evaluator:
 
     e_Name = _lookup
     e_Attribute = _lookup
-    e_Subscript = _lookup
+
+    def e_Subscript(self, node, env):
+        # D[k] for a dictionary display bound to a local, k a concrete key
+        b = access_path(node.value)
+        if b is not None and b in env and env[b][0] == "dict" and not isinstance(node.slice, ast.Slice):
+            out = []
+            for k in self.eval(node.slice, env):
+                if k[0] not in ("fin", "str", "bool", "none"):
+                    return [TOP]
+                hit = [v for kk, v in env[b][1] if kk == k]
+                out.append(hit[-1] if hit else TOP)      # a missing key raises: not modelled
+            return _dedup(out)
+        return self._lookup(node, env)
+
+    def e_Dict(self, node, env):
+        items = []
+        for k, v in zip(node.keys, node.values):
+            if k is None:
+                return [TOP]
+            ks, vs = self.eval(k, env), self.eval(v, env)
+            if len(ks) != 1 or len(vs) != 1 or ks[0][0] not in ("fin", "str", "bool", "none"):
+                return [TOP]
+            items.append((ks[0], vs[0]))
+        return [("dict", tuple(items))]
 
     # -- operators
     def e_UnaryOp(self, node, env):
@@ -409,6 +432,10 @@ class Evaluator:
         return None
 
     def compare(self, op, a, b, env):
+        if op in (ast.In, ast.NotIn) and b[0] == "dict":
+            if a[0] in ("fin", "str", "bool", "none"):
+                return [boolean(any(kk == a for kk, _ in b[1]) == (op is ast.In))]
+            return [TOP]
         if op in (ast.Is, ast.IsNot):
             if a[0] == "top" or b[0] == "top":
                 return [TOP]
